@@ -292,12 +292,13 @@ def run_rw(c):
         kind = "refresh-about-to-begin" if args[0].strip('"') == "ctx" else "refresh-in-progress"
         nj[kind] += 1
         example.setdefault(kind, (sg, idx, "the contract variant (Joins = TRUE) does not let Shutdown return here"))
-    late = 0
+    late = late_take = 0
     for sg in segs:
         ret = False
         for e in sg:
             ret = ret or e["ev"] == "ShutdownRet"
             late += ret and e["ev"] == "RefreshBegin" and e["which"] == "periodic"
+            late_take += ret and e["ev"] == "SleepBegin"
     if nj:
         text = ("RefreshWorker.Shutdown does not wait for the loop goroutine and does not document it (golibs "
                 "service.Interface: 'It is recommended that Shutdown returns only after the service has completely "
@@ -367,6 +368,9 @@ def run_rw(c):
                        len(segs), cnt["src:tlc"], cnt["src:random"], cnt["src:fixed"], len(ev), cnt["begin:periodic"],
                        cnt["end:periodic:ok"], cnt["end:periodic:err"], cnt["end:periodic:timeout"], cnt["begin:final"],
                        cnt["ret:nil"], cnt["ret:err"], cnt["ret:panic"], cnt["tick:False"], cnt["Tick"]))
+    c.notes.append("RefreshWorker: in %d worlds the loop took the waiting tick between close(done) and tick.Stop() of a Shutdown "
+                   "call (Go's select picks at random among the ready cases) and began a start sleep that was recorded after "
+                   "Shutdown had returned; the sleep is aborted at once (done is closed), no refresh follows" % late_take)
     c.notes.append("RefreshWorker observations (the documents are silent): a second Shutdown panics (close of a closed "
                    "channel) in %d of %d second calls, after running the shutdown refresh again when configured; the shutdown "
                    "refresh ran concurrently with a periodic refresh in %d worlds (nothing excludes it); the refresher's context "
